@@ -291,6 +291,8 @@ def s7_cfg(repo_dir, S, F=None):
                             n += 1
                             if not ALLOWED_CFG.match(pred):
                                 bad(i, "conditional-code", "code selected by cfg(%s)" % pred[:60])
+                        elif name in ("no_mangle", "export_name", "link_section", "link_name", "used", "naked", "target_feature", "global_allocator", "panic_handler"):
+                            bad(i, "linkage-attribute", "#[%s] changes how the item is linked or called from outside the crate" % name)
                         elif name == "path":
                             bad(i, "path-attribute", "#[path = ..] pulls in a module from a place this scan may not cover")
                 # macro calls: name ! ( / [ / {
@@ -449,6 +451,8 @@ def s8_config_independence(rep, repo, tag, configs):
         for p in sorted(set(ref) | set(other)):
             if p not in ref or p not in other:
                 S.bad("S8", "config-dependent-item", "%s:%s" % (cfg, p), "function %s exists in only one of the configurations default / %s" % (p, cfg))
+            elif ref[p][0] == "unsupported" or other[p][0] == "unsupported":
+                S.bad("S8", "config-unanalysable-function", "%s:%s" % (cfg, p), "%s cannot be evaluated (%s): nothing is known about its behaviour in %s" % (p, (ref[p] if ref[p][0] == "unsupported" else other[p])[1], cfg))
             elif ref[p] != other[p]:
                 S.bad("S8", "config-dependent-behaviour", "%s:%s" % (cfg, p), "%s computes different terms in the configurations default and %s: its behaviour depends on the build" % (p, cfg))
             else:
